@@ -508,6 +508,37 @@ Fixpoint spec_hist (sufs : list string) (has_lk has_home : bool) (lk : bytes -> 
       decide sufs (mkCfg has_lk lk has_home reg) sni :: spec_hist sufs has_lk has_home lk reg r
   end.
 
+(** ** The registry is looked up by exact equality of names
+
+    Server.endpoint(name) is a single map index s.endpoints[name]: a name is
+    connected only if an endpoint registered under exactly these bytes.  A name
+    that differs from a registered one in letter case (or in any other way a
+    normalisation would fold together) is a name whose endpoint is not
+    connected. *)
+Inductive reg_lookup :=
+| RegExactIndex                 (* c, ok := s.endpoints[name]; nothing else reads the table *)
+| RegOther (s : string).
+
+Fixpoint reg_exact (l : list (bytes * N)) (n : bytes) : option N :=
+  match l with
+  | [] => None
+  | (k, e) :: r => if beqb n k then Some e else reg_exact r n
+  end.
+
+(** a folding lookup: exact first, then the first entry whose normalised name matches *)
+Fixpoint reg_scan (norm : bytes -> bytes) (l : list (bytes * N)) (n : bytes) : option N :=
+  match l with
+  | [] => None
+  | (k, e) :: r => if beqb (norm n) (norm k) then Some e else reg_scan norm r n
+  end.
+
+Definition reg_folding (norm : bytes -> bytes) (l : list (bytes * N)) (n : bytes) : option N :=
+  match reg_exact l n with Some e => Some e | None => reg_scan norm l n end.
+
+(** ASCII lower case *)
+Definition lower_byte (b : N) : N := if (65 <=? b) && (b <=? 90) then b + 32 else b.
+Definition lower (s : bytes) : bytes := map lower_byte s.
+
 (** how often the emitted Server.dial calls the lookup *)
 Definition lookup_steps (steps : list dial_step) : nat :=
   List.length (filter (fun s => match s with DLookup => true | _ => false end) steps).
